@@ -707,6 +707,7 @@ def escape_linked_text(
                 yield '"/>'
             if len(elm) > 0:
                 raise ValueError("Nesting is not allowed in LinkedText")
+            yield html.escape(elm.tail or "")
         else:
             raise ValueError(
                 f"Only 'a' tags are allowed in LinkedText, not {elm.tag!r}"
